@@ -22,10 +22,14 @@ theorem BSim.recvOne {rest : List WsIn} (e : EP) (w : WsIn) :
   cases w with
   | eof =>
     simp only [Mux.recvOne, Mux.processIn, true_or, if_true]
-    exact (BSim.pop e .eof).congr rfl rfl
+    exact BSim.shrink { Shrinks.refl (bview e (.eof :: rest)) with
+      inbox := List.suffix_cons _ rest, srcEnded := fun _ => Or.inr ⟨.eof, List.mem_cons_self, rfl⟩,
+      pops := fun _ _ _ => rfl } rfl
   | err =>
     simp only [Mux.recvOne, Mux.processIn, or_true, if_true]
-    exact (BSim.pop e .err).congr rfl rfl
+    exact BSim.shrink { Shrinks.refl (bview e (.err :: rest)) with
+      inbox := List.suffix_cons _ rest, srcEnded := fun _ => Or.inr ⟨.err, List.mem_cons_self, rfl⟩,
+      pops := fun _ _ _ => rfl } rfl
   | msg m =>
     simp only [Mux.recvOne, reduceCtorEq, or_self, if_false]
     exact (BSim.processIn (l := rest) { e with inbox := rest } (.msg m) false rfl).congr rfl rfl
@@ -203,7 +207,7 @@ theorem BSim.windDownFinish {l : List WsIn} (e : EP) (res : ExitRes) :
   have sh : Shrinks (bview { e with flows := [], dead := true } l)
       { bview { e with flows := [] } [] with dq := [], dead := true, park := none } :=
     ⟨List.Sublist.refl _, rfl, List.suffix_refl _, List.nil_suffix, Or.inl rfl, id, List.Sublist.refl _, Or.inr rfl,
-     rfl, fun _ h => (nomatch h), rfl, rfl, fun _ => rfl⟩
+     rfl, fun _ h => (nomatch h), rfl, rfl, fun _ => rfl, fun h => Or.inl h, fun _ _ h => (nomatch h)⟩
   have g1 : BSim l { e with flows := [], dead := true } [] (Mux.windDownFinish e res).1 [] [] :=
     BSim.one (BStep.shrink _ _ sh) hv rfl
   refine (g0.tr1 g1).lbl ?_ ?_
